@@ -1161,9 +1161,12 @@ Definition word_of_file (root p : fspath) : word :=
                          raised before anything is touched
      examine_t tfix      examine as written, with the marker check of a torn directory raising (tfix = false: the script today) or
                          answering None like a missing marker (tfix = true: the repair `except ValueError: return None` around json.load)
-     tentry              a crash-schedule entry + te_torn: the interruption inside the pipeline run comes WHILE the last of the
-                         k - 4 files is being published instead of after it; if that file is the marker it is left torn (any
-                         other file: whole, see above), and the pipeline run has not succeeded
+     tentry              a crash-schedule entry + te_torn: the interruption inside the pipeline run comes WHILE event k - 4 of
+                         the run is under way instead of after it.  Events 1 .. m are the publications of its m files: if the
+                         file being published is the marker it is left torn (any other file: whole, see above), and the
+                         pipeline run has not succeeded.  Event m + 1 is the run's own wrap-up after its last publication
+                         (nextflow's report, trace, clean-up): interrupted there, every file is whole and the step counts as
+                         complete, but the exit status is not 0 and the call of run_next_* does not return
      attempt_t           one call of run_next_* on a tree with torn markers: raises (tree untouched, nothing named), or names a
                          directory (the operator removes it, torn or not), or is the model's attempt on the tree component
      op_screen_t         the operator counts directories HOLDING a marker file (he does not parse it)
@@ -1234,6 +1237,9 @@ Definition attempt_t (tfix : bool) (md : mode) (fixed : bool) (bs : Z) (n : nat)
           (* the interruption comes WHILE the (k-4)-th file is being published: it exists, torn; only a torn marker matters *)
           if te_torn te && last_is_meta ps && Nat.eqb (length ps) (e_k (te_e te) - 4)
           then ((upd_plate s clear_meta f1, s :: torn1), GLaunch s l ps false)
+          (* the interruption comes in the run's own wrap-up AFTER its last publication: every file is whole, the exit status is not 0 *)
+          else if te_torn te && ok && Nat.eqb (S (length ps)) (e_k (te_e te) - 4)
+          then ((f1, torn1), GLaunch s l ps false)
           else ((f1, torn1), g)
       | _ => ((f1, torn1), g)
       end
@@ -1279,3 +1285,64 @@ Fixpoint session_t (fuel : nat) (tfix : bool) (md : mode) (fixed : bool) (bs : Z
 Definition script_session_t (tfix : bool) (md : mode) (fixed : bool) (bs : Z) (n : nat) (tf : tfs) (sched : list tentry)
   : tfs * list irec := session_t (length sched) tfix md fixed bs n tf sched.
 Definition whole (e : entry) : tentry := mkte e false.
+
+(* ---------- vocabulary of the source-translation link on trees with torn markers (harness/src_functions.py C19_VALIDATE,
+   C19_EXAMINE, C19_RETRO / C19_PROSP; Proofs/C19Source.v) ----------
+   Since the repair of the torn-marker finding, validate_job_dir_and_return_meta looks INTO the marker file: json.load may raise
+   (ValueError: JSONDecodeError / UnicodeDecodeError - the file was cut short), and what it answers must be a dict with the key
+   n_unobserved_plates.  So a marker file is no longer "the value the script reads from it":
+     jval                 a JSON document as far as the script looks at it: a dict (with the value of its n_unobserved_plates
+                          entry, or without that key) or anything else (a list, a number, null ...)
+     mfile                the text of a screen_metadata.json file: Some j = the document j, None = no JSON document (torn)
+     marker_dir           a job directory as validate_job_dir_and_return_meta sees it: the marker files its glob matches (the
+                          translated function is linked for EVERY such list, whatever the files hold)
+     marker_dir_of        what that glob finds in the world (tree, torn set): a torn marker where the step is in the torn set,
+                          else the whole marker of f_meta, else nothing
+     valid_meta           what the repaired function answers: the first match, if it is a dict with the key; else None
+     jget_nup             meta["n_unobserved_plates"] in run_next_retrospective_step: KeyError (97) without the key, TypeError
+                          (96) on a document that is no dict - both proved unreachable (the metadata examine hands on is valid_meta's)
+     tfs_after            the world after the file-system actions of a call so far: rmtree of a job directory removes its torn marker
+     sres_of_tres         examine_t's answer in the translation's monad (TRaised w = an exception naming nothing, nothing done)
+     step_result_t        what a call of run_next_* does on a world with torn markers: examine_t decides whether a directory is
+                          named; if none is, no directory examine looked at holds a torn marker and the call is the model's plan
+                          on the tree component (attempt_t is built the same way) *)
+Inductive jval := JDict (nup : option Z) | JOther.
+Definition mfile := option jval.
+Definition marker_dir := list mfile.
+Definition glob_meta_files (d : marker_dir) : list mfile := d.
+Definition json_load (f : mfile) : option jval := f.
+Definition is_dict (o : option jval) : bool := match o with Some (JDict _) => true | _ => false end.
+(* `"n_unobserved_plates" not in o`: a key test on a dict only; on None or a number it is a TypeError, on a list / string it
+   would be an element / substring test (JOther does not say which document it is): an exception (96) in the model - the source
+   evaluates it only behind `not isinstance(o, dict) or`, and the link proves that this exception is never reached *)
+Definition lacks_nup (o : option jval) : sres bool :=
+  match o with Some (JDict (Some _)) => SOk false | Some (JDict None) => SOk true | _ => SRaised [] 96 end.
+Definition whole_meta (m : Z) : jval := JDict (Some m).
+Definition marker_dir_of (torn : torn_set) (p : plate_path) : marker_dir :=
+  if is_torn torn (fst p) then [None]
+  else match f_meta (snd p) with Some m => [Some (whole_meta m)] | None => [] end.
+Definition valid_meta (d : marker_dir) : option jval :=
+  match d with
+  | Some (JDict (Some m)) :: _ => Some (JDict (Some m))
+  | _ => None
+  end.
+Definition jget_nup (j : jval) : sres Z :=
+  match j with JDict (Some m) => SOk m | JDict None => SRaised [] 97 | JOther => SRaised [] 96 end.
+Definition torn_after (t : torn_set) (done : list action) : torn_set :=
+  fold_left (fun t a => match a with ARmTree s => untear s t | _ => t end) done t.
+Definition tfs_after (tf : tfs) (done : list action) : tfs := (tree_after (fst tf) done, torn_after (snd tf) done).
+Definition sres_of_tres {A} (r : tres A) : sres A :=
+  match r with TOk a => SOk a | TNamed w s => SNamed w s | TRaised w => SRaised [] w end.
+Definition tres_map {A B} (g : A -> B) (r : tres A) : tres B :=
+  match r with TOk a => TOk (g a) | TNamed w s => TNamed w s | TRaised w => TRaised w end.
+Definition xres_map {A B} (g : A -> B) (r : xres A) : xres B :=
+  match r with XOk a => XOk (g a) | XNamed w s => XNamed w s end.
+(* examine's answer as the translation holds it: the metadata is the loaded document *)
+Definition up_meta (a : Z * Z * option Z * option spath) : Z * Z * option jval * option spath :=
+  let '(i, j, m, s) := a in (i, j, option_map whole_meta m, s).
+Definition step_result_t (tfix : bool) (md : mode) (fixed : bool) (bs : Z) (tf : tfs) : sres (bool * list action) :=
+  match examine_t tfix fixed bs tf with
+  | TOk _ => result_of_plan md bs (plan_of md fixed bs (fst tf))
+  | TNamed w s => SNamed w s
+  | TRaised w => SRaised [] w
+  end.
